@@ -219,7 +219,7 @@ def _handed_out(f, name):
     return out
 
 
-def check(res, ctx, keys, label):
+def check(res, ctx, keys, label, kinds=('identity', 'shared')):
     """Run RP over the functions ``keys`` of a region.  Returns the number of constructs examined."""
     if RULE not in res.rules:
         res.rule(RULE, RULE_TEXT)
@@ -232,7 +232,7 @@ def check(res, ctx, keys, label):
         binds = _bindings(f)
         shadowed = set(m.functions) | set(m.constants)
         # RP.identity
-        for node in walk_no_defs(f):
+        for node in (walk_no_defs(f) if 'identity' in kinds else ()):
             if not isinstance(node, ast.Compare):
                 continue
             operands = [node.left] + list(node.comparators)
@@ -253,6 +253,8 @@ def check(res, ctx, keys, label):
                               '%s compares by identity (%s): %s is a computed %s, and whether two equal %ss are one object is an accident of the '
                               'interpreter (true for 3, false for 300 or for 2.0 against 2) - equal values must compare equal'
                               % (label, src(node), src(which), kind, kind), func=key[1])
+        if 'shared' not in kinds:
+            continue
         # RP.shared: mutable defaults
         a = f.args
         pos = a.posonlyargs + a.args
